@@ -20,8 +20,8 @@ from apischema.utils import to_camel_case
 
 PROP = "C10"
 RULE = (
-    "classes with 3 fields (a_x required, b aliased 'bee' with default, c with default) and 1..2 validators (thorough: 3 on "
-    "a reduced alphabet): each validator has an enumerated dependency set (every non-empty subset of the fields, read "
+    "classes with 3 fields (a_x required, b aliased 'bee' with default, c with default) and 1..2 validators (plus 3 on "
+    "a reduced alphabet: 12 (deps, kind) descriptors in quick, 16 in thorough): each validator has an enumerated dependency set (every non-empty subset of the fields, read "
     "directly, through a helper method or through a property), a kind in {plain, validator(field), validator(discard=g) for "
     "every field g}, an error style in {raise, yield message, yield (get_alias(self).f, message)}, declared in the class or "
     "in a base class; x every datum assigning each field one of {absent, valid, invalid} x every pass/fail vector x aliaser "
@@ -257,8 +257,10 @@ def class_space(tier: str) -> Iterator[Tuple[List[tuple], bool]]:
     for (d0, k0), (d1, k1) in itertools.product(dk, dk):
         if all(d in ("a_x", "b") for d in d0) and k0[1] in (None, "a_x", "b"):
             yield [("v0", d0, k0, "raise"), ("v1", d1, k1, "raise")], True
-    if tier == "thorough":
-        small = [(deps, kind) for deps in (("a_x",), ("b",), ("b", "c"), ("a_x", "c")) for kind in [("plain", None), ("field", "b"), ("discard", "c"), ("discard", "a_x")]]
+    # three validators (successive discards accumulate): reduced alphabet; thorough adds the third dependency pair
+    small_deps = (("a_x",), ("b",), ("b", "c"), ("a_x", "c")) if tier == "thorough" else (("a_x",), ("b",), ("a_x", "c"))
+    if True:
+        small = [(deps, kind) for deps in small_deps for kind in [("plain", None), ("field", "b"), ("discard", "c"), ("discard", "a_x")]]
         for a, b, c in itertools.product(small, small, small):
             yield [("v0", a[0], a[1], "raise"), ("v1", b[0], b[1], "yield"), ("v2", c[0], c[1], "raise")], False
 
